@@ -648,6 +648,16 @@ fn _unused() {
 
 /// a mixed bag of scenarios from every generator family, for the determinism self-test
 pub fn selftest_scenario(seed: u64, i: usize) -> Scenario {
+    // every scenario family takes part: pair (below), tx, rx, multi, hostile names, request lists
+    match i % 10 {
+        1 => return crate::props::c07::tx_scenario(seed, i),
+        2 => return crate::props::c09::rx_history(seed, i),
+        3 => return crate::props::c11::selftest(seed, i),
+        4 => return crate::props::c13::selftest(seed, i),
+        5 => return crate::props::c17::selftest(seed, i),
+        6 => return crate::props::c12::selftest(seed, i),
+        _ => {}
+    }
     let mut rng = Rng::new(mix(seed ^ 0x5E1F, i as u64));
     let k = Knobs { envelope: rng.chance(1, 2), handlers: true, ..Knobs::default() };
     let mut sc = gen::pair_cfg(&mut rng, &k);
